@@ -361,7 +361,10 @@ def evaluate(ctx: Ctx, cases, driver: Driver, stage_c=True, label=""):
             elif stage_c and m_s is None and not c.lines[li].startswith("#"):
                 ctx.failures.append(Failure("C", cd, li, "model driver gave no answer (crash or not built)", expected=e_s, got=i_s))
         if oracle:
-            msg = oracle(cd, io)
+            try:
+                msg = oracle(cd, io)
+            except Exception as e:      # the implementation's output has a shape the property's evaluation cannot even read
+                msg = f"the implementation's output cannot be evaluated against the property ({type(e).__name__}: {e})"
             if msg:
                 ctx.failures.append(Failure("D", cd, None, msg, got=canon(io)[:2000]))
         key = hashlib.sha1(canon([c.kind, c.spec]).encode()).digest()
